@@ -216,10 +216,11 @@ def run_unit(ctx, u):
     d_adv = _advertised_d(enc, spec)
     if d_adv is None:
         d_adv = d_true
-    if d_true is not None and d_adv is not None and d_true < d_adv:
-        ctx.violation(f"encoder|{cat.name(spec)}|advertised_t_attainable|advertised_t_unattainable", spec=spec, d_true=d_true, d_advertised=d_adv)
-        if (d_true - 1) // 2 < (d_adv - 1) // 2:
-            d_adv = d_true
+    if d_true is not None and d_adv is not None and (d_true - 1) // 2 < (d_adv - 1) // 2:
+        # same configuration classes as C03 (cyclic codes: advertisement rule changes at k = 12)
+        ktag = (",k>12" if k > 12 else ",k<=12") if spec["family"] in ("cyclic", "cyclic_std") else ""
+        ctx.violation(f"encoder|{cat.name(spec)}{ktag}|advertised_t_attainable|advertised_t_unattainable", spec=spec, d_true=d_true, d_advertised=d_adv)
+        d_adv = d_true
     if d_adv is None:
         ctx.skip("no distance available")
         return
